@@ -342,9 +342,9 @@ def run_shard(spec, seed, tier):
     mod = sys.modules[__name__]
     res = ShardResult()
     if tier == "quick":
-        hyp.search(res, st_case(30), simple.make_body(mod), seed, 400)
+        hyp.search(res, st_case(30), simple.make_body(mod), seed, 1000)
     else:
-        hyp.search(res, st_case(50), simple.make_body(mod), seed, 4000)
+        hyp.search(res, st_case(50), simple.make_body(mod), seed, 12000)
     return res
 
 
